@@ -782,6 +782,153 @@ Section MaskBranch.
   Qed.
 End MaskBranch.
 
+(* ------------------------------------------------------------------ 8. integer-list head *)
+
+Lemma select_map_In {A} (f : A -> bool) : forall l x, In x (select (map f l) l) -> f x = true /\ In x l.
+Proof.
+  induction l as [|y r IH]; intros x H; cbn in H; [contradiction|].
+  destruct (f y) eqn:E.
+  - destruct H as [<-|H]; [split; [exact E|now left]|]. destruct (IH x H). split; [assumption|now right].
+  - destruct (IH x H). split; [assumption|now right].
+Qed.
+
+Lemma local_list_positions h off : forall sel Pq, Forall (fun x => off <= x) sel ->
+  mapM (wrap_res h) (map (fun x => x - off) sel) = Ok Pq -> map (fun q => off + q) Pq = sel.
+Proof.
+  induction sel as [|x r IH]; intros Pq Hs H; cbn in H.
+  - injection H as <-. reflexivity.
+  - inversion Hs as [|? ? Hx Hr]; subst. unfold wrap_res at 1 in H.
+    destruct (wrap h (x - off)) as [q|] eqn:W; [|discriminate]. cbn [bind] in H.
+    destruct (mapM (wrap_res h) (map (fun x0 => x0 - off) r)) as [Pr|] eqn:E; [|discriminate]. cbn [bind] in H.
+    injection H as <-. assert (Hnn : 0 <= x - off) by lia. destruct (wrap_nonneg _ _ _ Hnn W) as [-> _].
+    cbn [map]. rewrite (IH Pr Hr eq_refl). f_equal. lia.
+Qed.
+
+Lemma wrap_all_norm total : forall l P, mapM (wrap_res total) l = Ok P ->
+  P = map (fun z => if z <? 0 then z + total else z) l /\ Forall (fun x => 0 <= x) P.
+Proof.
+  induction l as [|z r IH]; intros P H; cbn in H.
+  - injection H as <-. split; [reflexivity|constructor].
+  - unfold wrap_res at 1 in H. destruct (wrap total z) as [p|] eqn:W; [|discriminate]. cbn [bind] in H.
+    destruct (mapM (wrap_res total) r) as [Pr|] eqn:E; [|discriminate]. cbn [bind] in H. injection H as <-.
+    destruct (IH Pr eq_refl) as [-> HF]. destruct (wrap_norm _ _ _ W) as [-> Hr].
+    split; [reflexivity|]. constructor; [lia|exact HF].
+Qed.
+
+Section ListBranch.
+  Context (ps : list cpart) (fs : list nd) (T : list Z) (dt : Z) (tail : list aidx) (S : list sel).
+  Context (HP : Forall2 (part_ok T dt) ps fs).
+  Context (HT : List.length tail = List.length T).
+  Context (HS : mapM (fun p => resolve (fst p) (snd p)) (combine T tail) = Ok S).
+  Context (Hne : ps <> []).
+  Context (Hlen : Forall (fun p => 0 <= part_len p) ps).
+
+  Let lens := map part_len ps.
+  Let starts := starts_from 0 lens.
+  Let CH := List.concat (map (fun f => children (nd_body f)) fs).
+  Let total := zsum lens.
+  Let k := List.length ps.
+  Let LN : Forall (fun h => 0 <= h) lens := lens_nonneg ps Hlen.
+  Let R := row CH S.
+
+  Definition filled (o : option tree) (x : Z) : Prop := o = None \/ o = Some (R x).
+
+  Lemma scatter_inv ind : forall out inds xs out',
+    List.length inds = List.length xs ->
+    scatter out inds ind (map R (select (map (fun i => i =? ind) inds) xs)) = Ok out' ->
+    Forall2 filled out xs -> Forall2 filled out' xs.
+  Proof.
+    induction out as [|o out IH]; intros inds xs out' HL HSc HF.
+    - inversion HF; subst. destruct inds; [|discriminate]. cbn in HSc. injection HSc as <-. constructor.
+    - inversion HF as [|? x ? xs' Ho HF']; subst. destruct inds as [|i inds]; [discriminate|].
+      cbn [map select scatter] in HSc. destruct (i =? ind) eqn:E.
+      + cbn [map] in HSc.
+        destruct (scatter out inds ind _) as [t|] eqn:ET; [|discriminate]. cbn [bind] in HSc. injection HSc as <-.
+        constructor; [right; reflexivity|]. eapply IH; [|exact ET|exact HF']. cbn in HL. lia.
+      + destruct (scatter out inds ind _) as [t|] eqn:ET; [|discriminate]. cbn [bind] in HSc. injection HSc as <-.
+        constructor; [exact Ho|]. eapply IH; [|exact ET|exact HF']. cbn in HL. lia.
+  Qed.
+
+  Context (xs : list Z) (Hxs : Forall (fun x => 0 <= x) xs).
+  Let inds := map (find_indexer starts) xs.
+
+  Lemma scatter_parts_inv : forall n i out out', (i + n = k)%nat ->
+    scatter_parts (skipn i ps) (Z.of_nat i) (skipn i starts) xs inds tail out = Ok out' ->
+    Forall2 filled out xs -> Forall2 filled out' xs.
+  Proof.
+    assert (Hl : List.length lens = k) by (unfold lens, k; apply map_length).
+    assert (LE : lens <> []) by (unfold lens; destruct ps; [congruence|discriminate]).
+    set (pd := mk_cpart (mk_lazyidx [] [] [] 0) (Leaf 0)).
+    induction n as [|n IH]; intros i out out' Hi HSP HF.
+    - rewrite skipn_all2 in HSP by (fold k; lia). cbn in HSP. now injection HSP as <-.
+    - assert (Hik : (i < k)%nat) by lia.
+      rewrite (skipn_nth_cons ps i pd) in HSP by exact Hik.
+      rewrite (skipn_nth_cons starts i 0) in HSP by (unfold starts; rewrite starts_from_length, Hl; exact Hik).
+      cbn [scatter_parts] in HSP.
+      assert (Hoff : nth i starts 0 = bnd lens i).
+      { unfold starts. rewrite starts_from_nth by (rewrite Hl; exact Hik). lia. }
+      rewrite Hoff in HSP.
+      set (mask := map (fun j => j =? Z.of_nat i) inds) in *.
+      assert (Hstep : exists out1, (if existsb (fun b => b) mask
+                       then sub <- part_get (nth i ps pd) (AList (map (fun z => z - bnd lens i) (select mask xs)) :: tail) ;;
+                            scatter out inds (Z.of_nat i) (children (nd_body (a_nd sub)))
+                       else Ok out) = Ok out1 /\
+                     scatter_parts (skipn (Datatypes.S i) ps) (Z.of_nat i + 1) (skipn (Datatypes.S i) starts) xs inds tail out1 = Ok out').
+      { destruct (if existsb (fun b => b) mask then _ else _) as [out1|]; [|discriminate]. eauto. }
+      destruct Hstep as [out1 [H1 H2]].
+      replace (Z.of_nat i + 1) with (Z.of_nat (Datatypes.S i)) in H2 by lia.
+      apply (IH (Datatypes.S i) out1 out' ltac:(lia) H2).
+      destruct (existsb (fun b => b) mask); [|now injection H1 as <-].
+      destruct (part_get (nth i ps pd) _) as [sub|] eqn:EG; [|discriminate]. cbn [bind] in H1.
+      destruct (part_rows ps fs T dt tail S HP HT HS Hlen _ pd _ _ Hik EG) as [Pq [d [ER [_ [HN _]]]]].
+      fold lens in ER, HN. fold CH in HN.
+      cbn [resolve] in ER. destruct (mapM (wrap_res _) _) as [Pq'|] eqn:EW; [|discriminate].
+      cbn [bind] in ER. injection ER as <- <-.
+      assert (Hsel : Forall (fun x => bnd lens i <= x) (select mask xs)).
+      { apply Forall_forall. intros x Hx. unfold mask, inds in Hx. rewrite map_map in Hx.
+        apply select_map_In in Hx. destruct Hx as [Hfi Hin].
+        rewrite Forall_forall in Hxs. specialize (Hxs x Hin).
+        destruct (find_indexer_spec lens x LN LE Hxs) as [_ [B2 _]]. fold starts in B2.
+        replace (Z.to_nat (find_indexer starts x)) with i in B2 by lia. exact B2. }
+      pose proof (local_list_positions _ _ _ _ Hsel EW) as LP.
+      rewrite HN in H1. cbn [nd_body children] in H1. rewrite LP in H1.
+      apply (scatter_inv (Z.of_nat i) out inds xs out1); [unfold inds; apply map_length|exact H1|exact HF].
+  Qed.
+
+  Lemma filled_all : forall rows ys rows', Forall2 filled rows ys ->
+    mapM (fun o => match o with Some t => Ok t | None => Err end) rows = Ok rows' -> rows' = map R ys.
+  Proof.
+    induction rows as [|o r IH]; intros ys rows' HF H; inversion HF as [|? y ? ys' Ho HF']; subst; cbn in H.
+    - now injection H as <-.
+    - destruct o as [t|]; [|discriminate]. cbn [bind] in H.
+      destruct (mapM _ r) as [r'|] eqn:E; [|discriminate]. cbn [bind] in H. injection H as <-.
+      destruct Ho as [Ho|Ho]; [discriminate|]. injection Ho as ->. cbn [map]. f_equal. eapply IH; eauto.
+  Qed.
+End ListBranch.
+
+Lemma head_list ps fs T dt tail S l out :
+  Forall2 (part_ok T dt) ps fs -> List.length tail = List.length T ->
+  mapM (fun p => resolve (fst p) (snd p)) (combine T tail) = Ok S ->
+  ps <> [] -> Forall (fun p => 0 <= part_len p) ps ->
+  c_head ps dt (zsum (map part_len ps)) S (AList l) tail = Ok out ->
+  exists hs, resolve (zsum (map part_len ps)) (AList l) = Ok hs /\ head_result fs dt S out hs.
+Proof.
+  intros HP HT HS Hne Hlen HC. cbn [c_head] in HC.
+  set (total := zsum (map part_len ps)) in *.
+  destruct (mapM (wrap_res total) l) as [P|] eqn:EW; [|discriminate]. cbn [bind] in HC.
+  destruct (wrap_all_norm _ _ _ EW) as [HPn HPos].
+  rewrite <- HPn in HC.
+  destruct (scatter_parts _ _ _ _ _ _ _) as [rows|] eqn:ESP in HC; [|discriminate]. cbn [bind] in HC.
+  destruct (mapM _ rows) as [rows'|] eqn:ER in HC; [|discriminate]. cbn [bind] in HC. injection HC as <-.
+  assert (HF0 : Forall2 (filled fs S) (repeat None (List.length l)) P).
+  { apply mapM_ok_length in EW. rewrite <- EW. clear. induction P; cbn; constructor; auto. now left. }
+  pose proof (scatter_parts_inv ps fs T dt tail S HP HT HS Hne Hlen P HPos (List.length ps) 0 _ _ eq_refl ESP HF0) as HF.
+  pose proof (filled_all fs S _ _ _ HF ER) as ->.
+  exists (P, false). split; [cbn [resolve]; rewrite EW; reflexivity|].
+  split; [reflexivity|]. cbn [a_nd take_shape]. rewrite take_node. f_equal. f_equal.
+  apply mapM_ok_length in EW. unfold zlen. now rewrite EW.
+Qed.
+
 (* ------------------------------------------------------------------ 6. assembly *)
 
 Section Core.
@@ -794,17 +941,12 @@ Section Core.
   Let CH := List.concat (map (fun f => children (nd_body f)) fs).
   Let total := zsum lens.
 
-  (* head kinds whose branch is proved below *)
-  Definition head_proved (head : aidx) : Prop :=
-    match head with AInt _ | ASlice _ _ _ | AMask _ => True | AList _ => False end.
-
   Lemma head_all tail S head out0 : List.length tail = List.length T ->
     mapM (fun p => resolve (fst p) (snd p)) (combine T tail) = Ok S ->
-    head_proved head ->
     c_head ps dt total S head tail = Ok out0 ->
     exists hs, resolve total head = Ok hs /\ head_result fs dt S out0 hs.
   Proof.
-    intros HT HS Hh HC. destruct head as [z|a b cc|m|l]; try contradiction.
+    intros HT HS HC. destruct head as [z|a b cc|m|l].
     - exact (head_scalar ps fs T dt tail S HP HT HS Hne Hlen z out0 HC).
     - cbn [c_head] in HC. fold lens in HC. fold total in HC.
       destruct (slice_indices total a b cc) as [[[start stop] st]|] eqn:ESI; [|discriminate].
@@ -826,15 +968,15 @@ Section Core.
       + cbn [resolve]. now rewrite EL.
       + assert (Hm : zlen m = total) by lia.
         exact (head_mask_chunks ps fs T dt tail S HP HT HS Hlen m Hm chunks out0 EM HC).
+    - exact (head_list ps fs T dt tail S l out0 HP HT HS Hne Hlen HC).
   Qed.
 
   Lemma concat_core ts ixs out :
     c_initial_dtype ps = Ok dt ->
-    head_proved (hd full (pad_to (Datatypes.S (List.length T)) ixs)) ->
     c_getitem (mk_concat ps ts) ixs = Ok out ->
     (r <- oindex (mk_nd (total :: T) (Node CH)) ixs ;; apply_transforms ts (mk_arr dt r)) = Ok out.
   Proof.
-    intros Hdt Hh HG. unfold c_getitem in HG. cbn [c_parts c_ts] in HG.
+    intros Hdt HG. unfold c_getitem in HG. cbn [c_parts c_ts] in HG.
     assert (HI : c_initial_shape ps = Ok (total :: T) \/ c_initial_shape ps = Err).
     { unfold c_initial_shape. destruct ps as [|p r] eqn:EP; [now right|].
       destruct (forallb _ r); [left|now right]. inversion HP as [|? f ? fs' H0 _]; subst.
@@ -846,8 +988,7 @@ Section Core.
     { pose proof (pad_to_length (Datatypes.S (List.length T)) ixs) as PL. rewrite EPad in PL. cbn in PL. lia. }
     destruct (mapM _ (combine T tail)) as [S|] eqn:ES in HG; [|discriminate]. cbn [bind] in HG.
     destruct (c_head ps dt total S head tail) as [out0|] eqn:EH; [|discriminate]. cbn [bind] in HG.
-    cbn [hd] in Hh.
-    destruct (head_all tail S head out0 HT ES Hh EH) as [hs [ER [HD HN]]].
+    destruct (head_all tail S head out0 HT ES EH) as [hs [ER [HD HN]]].
     unfold oindex, resolve_all. cbn [nd_shape nd_body List.length]. rewrite EPad.
     cbn [combine mapM fst snd]. rewrite ER. cbn [bind]. rewrite ES. cbn [bind].
     destruct out0 as [d0 n0]. cbn [a_dtype a_nd] in HD, HN. subst d0 n0. exact HG.
